@@ -72,7 +72,7 @@ def run(ctx):
         "file system = name -> (content, permission bits) with atomic rename (POSIX rename atomicity is assumed, "
         "not proved); a kill point is a prefix of the action sequence (SIGKILL on system-call entry)",
         "the temporary name is a parameter of the model (strace output is compared with the name abstracted to `tmp`); "
-        "unlink of the process's own temporary file is assumed to succeed",
+        "a failing unlink of the temporary file is modelled (Act2.unlinkFail, File.closeU/commitU) and injected under strace",
         "bufio.Writer is transcribed with its sticky error (Safe.BW.write/flush test err first; Lemmas writeFile_closed "
         "proves it equal to the closed form chunk rule Safe.bufWrite + stop at the failing write, for every callback "
         "behaviour); the buffer size is measured from the code's behaviour "
@@ -82,8 +82,10 @@ def run(ctx):
         "page-cache content survives SIGKILL of the writer (no power loss); durability (fsync) is not part of the property",
         "umask arithmetic of the kernel: new file mode = requested mode &^ umask (observed on every run, not proved)",
         "a write(2) to the regular temporary file either transfers the whole chunk or fails (no short writes); no other "
-        "process touches the temporary name; name validation in CreateWithMode (ErrInvalid for a trailing separator) "
-        "and the O_EXCL retry loop of CreateTemp are outside the model",
+        "process touches the temporary name; name validation in CreateWithMode and the O_EXCL retry loop of CreateTemp "
+        "are modelled (Safe.validName, Safe.createTemp); the random numbers of CreateTemp are a parameter stream of the "
+        "model — a collision of a candidate name with an ABSENT destination of the form safe<digits> (probability 2^-63 "
+        "per attempt) is the one case excluded by hypothesis in full_dest_old_or_new and shown by an example",
     ]
     ctx.lean(props=["Props.C14"], drivers=["drv_c14"])
     if not ctx.harness("./cmd/c14"):
@@ -98,6 +100,14 @@ def run(ctx):
                     timeout=300)
     ctx.diff(area="api", driver="drv_c14", n={"quick": 6000, "thorough": 300000}, stateful=True, theorem=thm, timeout=300,
              what="in-process history of safe.File; output = result code, destination state, temporary file state")
+    ctx.diff(area="paths", driver="drv_c14", n={"quick": 500, "thorough": 20000}, theorem=thm, timeout=300,
+             what="names: the model's Clean/Dir against filepath.Clean/Dir; CreateTemp's naming (prefix, suffix, decimal "
+                  "middle of 12 files made by fs.CreateTemp) for patterns with/without '*', separators, '.', '..', empty, "
+                  "directories with/without trailing separator, unclean, missing, empty (os.TempDir)")
+    ctx.diff(area="dest", driver="drv_c14", n={"quick": 148, "thorough": 1480}, theorem=thm, timeout=300,
+             what="destination names that look like temporary names (safe123, safe2023-q4.csv, safe, safe*), pattern "
+                  "characters, sub-directories, '', '.', '..', a directory, a file as parent, 255/256-byte names, in a tree "
+                  "with look-alike files that must stay untouched")
     ctx.diff(area="wf", driver="drv_c14", n={"quick": 320, "thorough": 14000}, theorem=thm, timeout=300,
              what="in-process WriteFileWithMode; mid = temporary file size seen from the callback (bufio flush points)")
     # ---- strace streams
@@ -125,7 +135,8 @@ def run(ctx):
             "kill_runs": ctx.kinds.get("trace:kill", 0),
             "what": "fixed enumeration (no sampling): clean trace for sizes {0,1,B-1,B,B+1,200000} x {absent, existing} x "
                     "piece patterns; for the %s scenarios: every write(2) index, close, rename failing (thorough: each with "
-                    "ENOSPC, EIO and EACCES; quick: one of the three in rotation), callback failures, and SIGKILL on entry to every open/write/close/rename/unlink "
+                    "ENOSPC, EIO and EACCES; quick: one of the three in rotation), callback failures and panics, the loop of CreateTemp (EEXIST injected on the first k = 1, 2, 999, 1000 "
+                    "O_EXCL opens; another errno at once), a failing unlinkat in every cleanup path, and SIGKILL on entry to every open/write/close/rename/unlink "
                     "(index 1..count+1) of the clean run and of cleanup paths" % (
                         "full set of" if ctx.tier == "thorough" else "quick subset of"),
         }
